@@ -869,6 +869,8 @@ pub fn spell_model(m: &M, sels: &[u16], at: &mut usize, relaxed: bool) -> TDoc {
         M::Null => TDoc::Null,
         M::Bool(true) => TDoc::True,
         M::Bool(false) => TDoc::False,
+        // the integer zero may be written -0 (it reads as Int64(0), stored like 0)
+        M::Num(N::U(0)) | M::Num(N::I(0)) => TDoc::Num(if next(sels, at) % 4 == 0 { "-0".to_string() } else { "0".to_string() }),
         M::Num(N::U(v)) => TDoc::Num(v.to_string()),
         M::Num(N::I(v)) => TDoc::Num(v.to_string()),
         M::Num(N::F(f)) => {
